@@ -27,7 +27,7 @@ import (
 type Case struct {
 	Schemas map[string]string `json:"schemas"`
 	Value   string            `json:"value"`
-	Entry   string            `json:"entry"` // visit | visit-multi | request | request-multi | response | query
+	Entry   string            `json:"entry"` // visit | request | response | query | header | cookie | response-header, each also as <entry>-multi
 }
 
 var noDetails = os.Getenv("VERIF_C19_NODETAILS") != ""
@@ -105,33 +105,36 @@ func check(c Case) (o h.Outcome) {
 
 	var verr error
 	fullTextMustBeClean := false
-	switch c.Entry {
-	case "visit", "visit-multi":
+	// every entry has a multi-error twin ("<entry>-multi")
+	multi := strings.HasSuffix(c.Entry, "-multi")
+	entry := strings.TrimSuffix(c.Entry, "-multi")
+	switch entry {
+	case "visit":
 		var opts []openapi3.SchemaValidationOption
-		if c.Entry == "visit-multi" {
+		if multi {
 			opts = append(opts, openapi3.MultiErrors())
 		}
 		if !o.Guarded("VisitJSON", func() { verr = root.VisitJSON(jv.Clone(v), opts...) }) {
 			return
 		}
 		fullTextMustBeClean = noDetails
-	case "request", "request-multi", "query", "header", "cookie":
+	case "request", "query", "header", "cookie":
 		route, rerr := kinx.Route(doc, "/p", "POST")
 		if rerr != nil {
 			panic("harness: " + rerr.Error())
 		}
-		opts := &openapi3filter.Options{MultiError: c.Entry == "request-multi"}
+		opts := &openapi3filter.Options{MultiError: multi}
 		if !noDetails {
 			opts.WithCustomSchemaErrorFunc(reasonOnly)
 		}
 		var req *http.Request
-		if c.Entry == "query" || c.Entry == "header" || c.Entry == "cookie" {
+		if entry == "query" || entry == "header" || entry == "cookie" {
 			s, isStr := v.(string)
 			if !isStr {
 				o.Discard = true
 				return
 			}
-			switch c.Entry {
+			switch entry {
 			case "query":
 				req, _ = http.NewRequest("POST", "http://x/p?q="+url.QueryEscape(s), nil)
 			case "header":
@@ -152,7 +155,7 @@ func check(c Case) (o h.Outcome) {
 			return
 		}
 		fullTextMustBeClean = true
-		if c.Entry == "query" || c.Entry == "header" || c.Entry == "cookie" {
+		if entry == "query" || entry == "header" || entry == "cookie" {
 			// only parameters that parse but fail their schema are in the quantifier
 			isSchemaErr := false
 			kinx.WalkErrors(verr, func(e error) {
@@ -168,7 +171,7 @@ func check(c Case) (o h.Outcome) {
 		}
 	case "response", "response-header":
 		route, _ := kinx.Route(doc, "/p", "POST")
-		opts := &openapi3filter.Options{}
+		opts := &openapi3filter.Options{MultiError: multi}
 		if !noDetails {
 			opts.WithCustomSchemaErrorFunc(reasonOnly)
 		}
@@ -178,7 +181,7 @@ func check(c Case) (o h.Outcome) {
 			Status:                 200, Header: http.Header{"Content-Type": []string{"application/json"}},
 			Body: io.NopCloser(strings.NewReader(c.Value)), Options: opts,
 		}
-		if c.Entry == "response-header" {
+		if entry == "response-header" {
 			s, isStr := v.(string)
 			if !isStr {
 				o.Discard = true
@@ -193,7 +196,7 @@ func check(c Case) (o h.Outcome) {
 			return
 		}
 		fullTextMustBeClean = true
-		if c.Entry == "response-header" {
+		if entry == "response-header" {
 			// as for parameters: only header texts that decode but fail their schema are in the quantifier
 			isSchemaErr := false
 			kinx.WalkErrors(verr, func(e error) {
@@ -389,13 +392,17 @@ func gen(t *rapid.T) Case {
 	v := schemagen.GenValue(s, depth+2).Draw(t, "value")
 	n := 0
 	v = mark(t, v, &n)
-	entries := []string{"visit", "visit-multi", "request", "request-multi", "response", "query", "header", "cookie", "response-header"}
+	entries := []string{"visit", "request", "response", "query", "header", "cookie", "response-header"}
 	entry := rapid.SampledFrom(entries).Draw(t, "entry")
+	multi := rapid.IntRange(0, 2).Draw(t, "multi") == 0
 	if entry == "query" || entry == "header" || entry == "cookie" || entry == "response-header" {
 		if _, ok := v.(string); !ok {
 			n++
 			v = fmt.Sprintf("%s%dsecretvalue", markPrefix, n)
 		}
+	}
+	if multi {
+		entry += "-multi"
 	}
 	return Case{Schemas: schemas, Value: jv.Canon(v), Entry: entry}
 }
